@@ -6,3 +6,5 @@ import Bp7.Props.C13
 #print axioms Bp7.C13.decStr_injective
 #print axioms Bp7.C13.decStr_no_dash
 #print axioms Bp7.C13.refbundle_eq_id_general
+#print axioms Bp7.C13.id_injective_dashless_sources
+#print axioms Bp7.C13.id_injective_ipn_sources
